@@ -1,6 +1,12 @@
 package main
 
 import (
+	"sync"
+	"math/big"
+	"crypto/x509/pkix"
+	"crypto/x509"
+	"crypto/rand"
+	"crypto/ed25519"
 	netmail "net/mail"
 	"crypto/tls"
 	"bytes"
@@ -38,6 +44,25 @@ type SmtpMsg struct {
 	FailVia string `json:"fail_via,omitempty"`
 	// ToViaAdd: the To list is built with To(first) followed by one AddTo per further address
 	ToViaAdd bool `json:"to_via_add,omitempty"`
+}
+
+var (
+	unusableOnce sync.Once
+	unusableKey  ed25519.PrivateKey
+	unusableCert *x509.Certificate
+)
+
+// unusableSignerKey: a key pair SignWithKeypair accepts but the S/MIME signer (RSA / ECDSA only) cannot sign with
+func unusableSignerKey() (ed25519.PrivateKey, *x509.Certificate) {
+	unusableOnce.Do(func() {
+		pub, priv, _ := ed25519.GenerateKey(rand.Reader)
+		tpl := &x509.Certificate{SerialNumber: big.NewInt(7), Subject: pkix.Name{CommonName: "sender@example.com"},
+			NotBefore: time.Now().Add(-time.Hour), NotAfter: time.Now().Add(24 * time.Hour)}
+		der, _ := x509.CreateCertificate(rand.Reader, tpl, tpl, pub, priv)
+		unusableKey = priv
+		unusableCert, _ = x509.ParseCertificate(der)
+	})
+	return unusableKey, unusableCert
 }
 
 // failSeeker: an io.ReadSeeker that delivers the first half of data and then fails, every time
@@ -82,6 +107,10 @@ type SmtpScenario struct {
 	// CtxCancelInMsg = k > 0: the context handed to DialAndSendWithContext is cancelled while the body of
 	// the k-th message is being produced (a context meant for the dial that runs out during a send)
 	CtxCancelInMsg int `json:"ctx_cancel_in_msg,omitempty"`
+	// CtxCancelAtPos = k > 0: the context handed to DialAndSendWithContext is cancelled while the server
+	// handles script position k (the EHLO, STARTTLS, the handshake, AUTH, a later command): the connection
+	// exists by then, so the dialogue goes on as if nothing had happened
+	CtxCancelAtPos int `json:"ctx_cancel_at_pos,omitempty"`
 	// Warmup: before the run that is looked at, the SAME Client performs this one against another server
 	// incarnation (only Caps, Script and Msgs of it are used; not with TLS). Nothing of it may carry over.
 	Warmup *SmtpScenario `json:"warmup,omitempty"`
@@ -184,7 +213,15 @@ func buildSmtpMsg(i int, sm SmtpMsg) *mail.Msg {
 		line := fmt.Sprintf("message %d, a line of the big body .......................................\r\n", i)
 		body = strings.Repeat(line, sm.BigBody/len(line)+1)
 	}
-	if sm.RenderFail && sm.FailVia != "" {
+	if sm.RenderFail && sm.FailVia == "sign" {
+		// S/MIME signing fails when the message is written (a key the signer cannot use): the rendering
+		// fails before its first byte
+		m.SetBodyString(mail.TypeTextPlain, body)
+		key, cert := unusableSignerKey()
+		if err := m.SignWithKeypair(key, cert, nil); err != nil {
+			m.SetBodyWriter(mail.TypeTextPlain, producer([][]byte{nil}, true))
+		}
+	} else if sm.RenderFail && sm.FailVia != "" {
 		m.SetBodyString(mail.TypeTextPlain, body)
 		ferr := error(errProducer)
 		if sm.FailVia == "seeker-eof" {
@@ -327,6 +364,19 @@ func RunScenario(sc *SmtpScenario) (run *SmtpRun, msgs []*mail.Msg) {
 	how := pick(4)
 	if sc.CtxCancelInMsg > 0 {
 		how = 0
+	}
+	if sc.CtxCancelAtPos > 0 {
+		how = 0
+		orig := srv.Dynamic
+		srv.Dynamic = func(pos int, verb, line string) (SrvAction, bool) {
+			if pos == sc.CtxCancelAtPos {
+				cancel()
+			}
+			if orig != nil {
+				return orig(pos, verb, line)
+			}
+			return SrvAction{}, false
+		}
 	}
 	if !watchdog(60*time.Second, func() {
 		defer func() {
